@@ -330,7 +330,9 @@ impl PathStroker {
         }
 
         if line_join == LineJoin::MiterClip {
-            inv_miter_limit = miter_limit.invert();
+            // A limit below 1 would put the clip line inside the bevel; its corners then run away
+            // along the offset lines as the turn gets shallower. Clip at the stroke radius instead.
+            inv_miter_limit = miter_limit.max(1.0).invert();
         }
 
         self.res_scale = res_scale;
